@@ -3,6 +3,8 @@ CONSTANTS
   NT = 0
   NU = 0
   NA = 2
+  Throwing = FALSE
+  WithMake = FALSE
   Vals = {1, 2}
 INVARIANTS TypeOK WellFormed LastAgrees
 PROPERTIES RefProtocolLegal Independence CopiesEqualSource
